@@ -75,7 +75,10 @@ def check(repo: Repo, rep: Report) -> None:
     # Q3
     ea = repo.fn(SO, "ScheduledObserver.ensure_active")
     acq = [s for s in sites(ea) if isinstance(s.node, ast.Assign) and any(field_of(t) == "is_acquired" for t in s.node.targets)]
-    rep.require(acq, "is_acquired write in ensure_active")
+    if not acq:
+        rep.ob("Q3-ownership", ea, "ensure_active: the caller that finds the observer idle takes ownership (is_acquired = True)", False,
+               "ensure_active never sets is_acquired: every notification finds the drain un-owned and starts another drain loop — "
+               "notifications are delivered concurrently / out of order")
     for s in acq:
         ok = cl.held(s) and isinstance(s.node.value, ast.Constant) and s.node.value.value is True \
             and has_guard(s.ctx, "self.has_faulted", False) and has_guard(s.ctx, "self.queue", True)
